@@ -237,6 +237,11 @@ def explore(ctx):
         cls = None
         if "blstrs_plus" in at and "/src/util.rs" in at and part.startswith("bytes:json"):
             cls = "json-hex-leaf-decoder-panics"
+        # the compact BBS key with an announced message count of 2^32 or more: allocation failure (abort) or capacity overflow
+        if part == "codec:bbs:cpk" and (extra or {}).get("count", 0) >= 2 ** 32 and \
+                (at.startswith("PROCESS ABORT") and "memory allocation of" in at and "MessageGenerators::with_api_id" in at
+                 or "raw_vec" in at and "capacity overflow" in at):
+            cls = "bbs-compact-key-unbounded-message-count"
         panic_sites[at.split(" :: ")[0]] = panic_sites.get(at.split(" :: ")[0], 0) + 1
         case = {"part": part, "mutation": descr, "panic_at": at, "op": op}
         if extra:
@@ -246,7 +251,7 @@ def explore(ctx):
 
     # an entry point must neither unwind nor abort nor hang: a dead or silent harness process is attributed to its op
     def died_at(r):
-        return f"PROCESS {r['r'].upper()} (rc={r.get('rc')}) :: {(r.get('stderr') or '')[-200:]}"
+        return f"PROCESS {r['r'].upper()} (rc={r.get('rc')}) :: " + " | ".join(l.strip() for l in (r.get("stderr") or "").splitlines() if l.strip())[:700]
 
     def xexec(ops, nproc=16):
         res = C.run_exec_parallel(ops, nproc=nproc, robust=True)
@@ -514,19 +519,37 @@ def explore(ctx):
             for mb in muts:
                 opsD.append({"op": "d_codec_dec", "suite": suite, "codec": name, "b": mb.hex()})
                 ownD.append(f"codec:{suite}:{name}")
+    # the compact BBS public key (point, announced number of messages) expanded by the receiver: every small count, powers of
+    # two up to 2^13, and counts no honest key has
+    cpk = C.run_exec([{"op": "d_codec_cpk", "n": 3}])[0]
+    if cpk.get("r") != "ok":
+        raise C.Infra("d_codec_cpk: " + json.dumps(cpk)[:300])
+    cb = bytes.fromhex(cpk["b"])
+    counts = list(range(0, 6)) + [2 ** k for k in range(3, 14)] + [2 ** 32, 2 ** 40, 2 ** 47, 2 ** 56, 2 ** 62, 2 ** 63, 2 ** 64 - 1]
+    cpk_count = {}
+    for n in counts:
+        b = cb[:96] + n.to_bytes(8, "little")
+        opsD.append({"op": "d_codec_dec", "suite": "bbs", "codec": "cpk", "b": b.hex()})
+        ownD.append("codec:bbs:cpk")
+        cpk_count[b.hex()] = n
+    for mb in [cb[:-1], cb[:96], cb + b"\x00", b"", bytes(96) + (3).to_bytes(8, "little"), bytes([0xc0]) + bytes(95) + (3).to_bytes(8, "little"),
+               bytes(rng.randrange(256) for _ in range(104))]:
+        opsD.append({"op": "d_codec_dec", "suite": "bbs", "codec": "cpk", "b": mb.hex()})
+        ownD.append("codec:bbs:cpk")
     resD = xexec(opsD, nproc=16)
     for part, op, r in zip(ownD, opsD, resD):
         evaluations += 1
         bump("D:" + part + ":" + r["r"])
         if r["r"] == "panic":
-            panic(part, f"from_bytes({len(op['b']) // 2} bytes)", r.get("at", ""), op)
+            panic(part, f"from_bytes({len(op['b']) // 2} bytes)" + (f" announcing {cpk_count[op['b']]} messages, then decompress" if op["b"] in cpk_count else ""),
+                  r.get("at", ""), op, {"count": cpk_count.get(op["b"], -1)})
         elif r["r"] == "ok":
             nontrivial.add(C.case_hash([part, op["b"]]))
 
     return {
         "evaluations": evaluations,
         "distinct_nontrivial": len(nontrivial),
-        "rule": "cases = (entry point, input): A all strings of length 0..%d over an 18-symbol alphabet, prefixed and random longer strings, byte strings of length 0..33 for every claim type, scalars with every top byte (parsers/unpackers, compared with the model's full result); B one structural mutation (delete/duplicate/reorder element, delete/rename key, value of a sibling, retarget text, set integer, flip flag: all points; retype, set bytes: 1 in %d) of the CBOR tree of a presentation / presentation schema / credential map / issuer public data / blind request / known claims / blind bundle / blind claims, both suites, decoded and passed to verify, create, blind_sign_credential, to_unblinded, BlindCredentialRequest::new and the decryption methods; C byte-level mutations of CBOR, BARE and JSON encodings of five object kinds; D arbitrary and mutated bytes for every hand-written from_bytes. distinct by hash of (part, input); non-trivial = decoded/parsed successfully so that the entry point itself ran" % (4 if tier == "thorough" else 3, sample),
+        "rule": "cases = (entry point, input): A all strings of length 0..%d over an 18-symbol alphabet, prefixed and random longer strings, byte strings of length 0..33 for every claim type, scalars with every top byte (parsers/unpackers, compared with the model's full result); B one structural mutation (delete/duplicate/reorder element, delete/rename key, value of a sibling, retarget text, set integer, flip flag: all points; retype, set bytes: 1 in %d) of the CBOR tree of a presentation / presentation schema / credential map / issuer public data / blind request / known claims / blind bundle / blind claims, both suites, decoded and passed to verify, create, blind_sign_credential, to_unblinded, BlindCredentialRequest::new and the decryption methods; C byte-level mutations of CBOR, BARE and JSON encodings of five object kinds; D arbitrary and mutated bytes for every hand-written from_bytes, and the compact BBS public key with every announced message count from a boundary list, expanded by the receiver. distinct by hash of (part, input); non-trivial = decoded/parsed successfully so that the entry point itself ran" % (4 if tier == "thorough" else 3, sample),
         "samples": samples,
         "histograms": {"counts": hist, "panic_sites": panic_sites},
         "failures": failures,
